@@ -16,7 +16,7 @@ RULE = ('arguments from {-3..12, 2^55-1, 2^55, 2^55+1, 2^64, integers boxed thro
 PARAMS = {'quick': {'n': 2500}, 'thorough': {'n': 100000}}
 MIN_EVAL = {'quick': 15000, 'thorough': 800000}
 STRATA = ['between-enum', 'between-check', 'between-big', 'between-errors', 'length-proper', 'length-partial-unbound', 'length-partial-bound',
-          'length-errors', 'numlist', 'succ', 'succ-errors']
+          'length-errors', 'numlist', 'numlist-partial', 'succ', 'succ-errors']
 ASSUMPTIONS = ['infinite enumerations are compared on a finite prefix', 'errors compared on the formal\'s functor and first argument']
 
 BIG = [2 ** 55 - 1, 2 ** 55, 2 ** 55 + 1, 2 ** 64, -(2 ** 55), -(2 ** 55) - 1, -(2 ** 64)]
@@ -123,6 +123,25 @@ def gen_cases(rng, n):
                 yield 'numlist', G('( numlist(%s, %s, L) -> R = L ; R = failed )' % (lit(lo), lit(hi))), ('val', mkatom('failed'))
             u = rng.randint(0, 9)
             yield 'numlist', G('numlist(%s, R)' % lit(u)), ('val', mklist([mkint(x) for x in range(1, u + 1)]))
+            # partial modes of numlist/3: a finite prefix of the enumeration must be sound, free of duplicates and fair
+            mode = rng.choice(['both-unbound', 'lower-bound', 'upper-bound', 'list-bound'])
+            if mode == 'both-unbound':
+                yield 'numlist-partial', 'findall(L-U-Xs, ( call_nth(numlist(L, U, Xs), N), ( N >= 400 -> ! ; true ) ), R)', ('check', numlist_prefix_check(None, None, 3))
+            elif mode == 'lower-bound':
+                k = rng.randint(-4, 4)
+                yield 'numlist-partial', 'findall(%d-U-Xs, ( call_nth(numlist(%d, U, Xs), N), ( N >= 12 -> ! ; true ) ), R)' % (k, k), ('check', numlist_prefix_check(k, None, 8))
+            elif mode == 'upper-bound':
+                k = rng.randint(-4, 4)
+                yield 'numlist-partial', 'findall(L-(%d)-Xs, ( call_nth(numlist(L, %d, Xs), N), ( N >= 12 -> ! ; true ) ), R)' % (k, k), ('check', numlist_prefix_check(None, k, 8))
+            else:
+                lo = rng.randint(-4, 4)
+                xs = list(range(lo, lo + rng.randint(1, 5)))
+                # the relation is finite here (one tuple): the search for further answers must end (bounded: 3*10^6 inferences)
+                yield ('numlist-partial', 'call_with_inference_limit(findall(L-U, numlist(L, U, %s), R0), 3000000, Lim), R = Lim-R0' % str(xs).replace(' ', ''),
+                       ('check', lambda o, xs=xs: None if o == ('val', mkc('-', mkatom('!'), mklist([mkc('-', mkint(xs[0]), mkint(xs[-1]))])))
+                        or o == ('val', mkc('-', mkatom('true'), mklist([mkc('-', mkint(xs[0]), mkint(xs[-1]))])))
+                        else ('enumeration_does_not_terminate_for_finite_relation' if o[0] == 'val' and o[1][0] == 'c' and o[1][2][0] == mkatom('inference_limit_exceeded') else 'wrong_answers')),
+                       {'mode': 'list-bound'})
         elif r == 9:
             v = rng.choice([0, 1, 2, 7, 2 ** 55 - 1, 2 ** 55, 2 ** 64])
             yield 'succ', G('succ(%s, R)' % lit(v)), ('val', mkint(v + 1))
@@ -151,6 +170,38 @@ def first4(exp):
         if rename_canonical(o[1]) == rename_canonical(exp):
             return None
         return 'wrong_enumeration'
+    return check
+
+
+def numlist_prefix_check(lo, hi, span):
+    """prefix of numlist(L, U, Xs) answers: every answer sound, no duplicates, and every pair within `span` of the bound
+    parts (or of 0) must have appeared"""
+    def check(o):
+        if o[0] != 'val':
+            return o[0]
+        items = [] if o[1] == NIL else list(o[1][1])
+        seen = set()
+        for it in items:
+            try:
+                l, u, xs = it[2][0][2][0][1], it[2][0][2][1][1], it[2][1]
+                got = [] if xs == NIL else [x[1] for x in xs[1]]
+            except Exception:
+                return 'garbled_answer'
+            if got != list(range(l, u + 1)) or not got:
+                return 'unsound_answer'
+            if (l, u) in seen:
+                return 'duplicate_answer'
+            seen.add((l, u))
+            if lo is not None and l != lo or hi is not None and u != hi:
+                return 'answer_ignores_bound_argument'
+        if lo is None and hi is None:
+            want = {(a, b) for a in range(-span, span + 1) for b in range(a, span + 1)}
+        elif lo is not None:
+            want = {(lo, b) for b in range(lo, lo + span)}
+        else:
+            want = {(a, hi) for a in range(hi - span + 1, hi + 1)}
+        missing = want - seen
+        return None if not missing else 'enumeration_misses_tuples'
     return check
 
 
